@@ -258,6 +258,7 @@ def mon_c05(c, r):
     alive = True
     signalled = False
     seen_none = False
+    parked = False
     for k, e in enumerate(r.ev):
         tok = r.events[k]
         if tok == 'x':
@@ -268,8 +269,14 @@ def mon_c05(c, r):
             i = int(tok[1:])
             if i in yielded:
                 dropped.add(i)
+            if alive and parked and not signalled and e and e[-1] == 'W0':
+                for v in range(c.n):
+                    if v not in yielded and all(p in dropped for p in preds.get(v, ())):
+                        return ('dropping the FnRef of %d made function %d releasable while the consumer was parked (last poll Pending), '
+                                'but no wake-up of the waker of that poll was signalled' % (i, v))
         elif tok == 'n' and alive and e:
             res = e[0]
+            parked = (res == 'P')
             if res == 'X':
                 return 'poll_next panicked at event %d' % k
             if seen_none and res != 'N' and not signalled:
